@@ -62,9 +62,14 @@ class StateSpace:
         return (
             state.grid.shape == self.grid_shape
             and state.grid.object_types().issubset(self.object_types)
+            and all(
+                state.grid[position].color in self.colors
+                for position in state.grid.area.positions()
+            )
             and state.grid.area.contains(state.agent.position)
             and isinstance(state.agent.orientation, Orientation)
             and type(state.agent.grid_object) in self._agent_object_types
+            and state.agent.grid_object.color in self.colors
         )
 
     @property
